@@ -9,6 +9,24 @@ From PV Require Import lib.Sx lib.Str lib.Result.
 Import ListNotations.
 Open Scope Z_scope.
 
+(* utils.split_lines: re.split('\r\n|\r|\n', content), a final empty piece dropped - the document readers split at
+   LF, CR LF and CR only (U+2028, U+0085, VT, FF ... are ordinary text).  Same shape as str.splitlines. *)
+Definition is_lf_cr (c : Z) : bool := (c =? 10) || (c =? 13).
+Fixpoint split_lines_aux (s : str) (cur : str) (started : bool) : list str :=
+  match s with
+  | [] => if started then [rev cur] else []
+  | c :: t =>
+      if is_lf_cr c then
+        rev cur :: (if c =? 13
+                    then match t with
+                         | 10 :: t' => split_lines_aux t' [] false
+                         | _ => split_lines_aux t [] false
+                         end
+                    else split_lines_aux t [] false)
+      else split_lines_aux t (c :: cur) true
+  end.
+Definition split_lines (s : str) : list str := split_lines_aux s [] false.
+
 Definition py_int (s : str) : result Z :=
   match int_of_digits s with Some z => Ok z | None => Err ValueError end.
 
@@ -91,7 +109,7 @@ Fixpoint srt_loop (fuel : nat) (rest : list str) (acc : list rcap) : result (lis
   end.
 
 Definition srt_read (content : str) : result (list rcap) :=
-  let lines := splitlines content in
+  let lines := split_lines content in
   no_captions_if_empty (srt_loop (S (length lines)) lines []).
 
 (* ============================== WebVTT ======================================= *)
@@ -189,7 +207,7 @@ Fixpoint vtt_loop (strict : bool) (shift : Z) (lines : list str) (st : vtt_state
 
 Definition vtt_read (strict : bool) (shift_ms : Z) (content : str) : result (list rcap) :=
   no_captions_if_empty
-    (do st <- vtt_loop strict (shift_ms * 1000) (splitlines content) (mkVS [] 0 0 [] false);
+    (do st <- vtt_loop strict (shift_ms * 1000) (split_lines content) (mkVS [] 0 0 [] false);
      Ok (match vs_nodes st with
          | [] => vs_caps st
          | _ => vs_caps st ++ [(vs_start st, vs_end st, vs_nodes st)]
@@ -458,7 +476,7 @@ Fixpoint mdvd_loop (lines : list str) (fps : Z * Z) (acc : list rcap) : result (
   end.
 
 Definition mdvd_read (content : str) : result (list rcap) :=
-  no_captions_if_empty (mdvd_loop (splitlines content) (25, 1) []).
+  no_captions_if_empty (mdvd_loop (split_lines content) (25, 1) []).
 
 (* ---- pre-fix variant, kept on record (not used by the oracle) ------------------------------ *)
 (* before `fix: DFXP clock-time fraction with more than 3 digits was scaled as milliseconds`:
